@@ -341,6 +341,25 @@ def p1_exact_returns(ctx: Ctx):
     fr = ctx.fn(CORE, 'frexp')
     ctx.check('m = ctx.round(fp.RealFloat(s=x.s, e=0, c=x.c), exact=True)' in norm(fr, 4000) and 'e = ctx.round(x.e, exact=True)' in norm(fr, 4000), CORE, fr, 'frexp',
               'frexp: mantissa = same digits at exponent 0, exponent = x.e', 'changed')
+    # an operand need not carry a context (Float.from_float, Float.from_int, Float(c=.., exp=..) do not set one): the
+    # decompositions ask nothing of it that needs one.  The methods of Float that refuse such a value are read off
+    # floats.py (a `raise` under `if self._ctx is None`, at any depth, reached with the arguments given).
+    FLOATS = 'fpy2/number/number/floats.py'
+    needs: dict[str, bool] = {}        # method -> only when called without arguments
+    for mname, (_, _, m) in repo.methods(FLOATS, 'Float', inherited=False).items():
+        for n in ast.walk(m):
+            if isinstance(n, ast.If) and norm(n.test) == 'self._ctx is None' and any(isinstance(x, ast.Raise) for x in n.body):
+                outer = [o for o in ast.walk(m) if isinstance(o, ast.If) and o is not n and any(x is n for x in ast.walk(o))]
+                needs[mname] = bool(outer)
+    if not {'normalize', 'is_normal', 'next_up'} <= set(needs):
+        raise ShapeError(f'context-requiring methods of Float not recognised: {sorted(needs)}')
+    for name in ('split', 'modf', 'frexp'):
+        fn = ctx.fn(CORE, name)
+        operands = {a.arg for a in fn.args.args if a.arg != 'ctx'}
+        offending = [k for k in calls_in(fn) if isinstance(k.func, ast.Attribute) and isinstance(k.func.value, ast.Name) and k.func.value.id in operands
+                     and k.func.attr in needs and (not needs[k.func.attr] or not (k.args or k.keywords))]
+        ctx.check(not offending, CORE, offending[0] if offending else fn, name, f'{name} asks nothing of its operand that needs the operand to carry a context',
+                  f'{[norm(k) for k in offending]} raises ValueError for a value built without one: {name}(Float.from_float(1.25), ctx=FP16) fails where the other decompositions answer')
 
 
 def _blocks(fn):
@@ -385,6 +404,10 @@ MUTANTS = [
            "                case Float(), Float():\n                    xr, yr = x.as_real(), y.as_real()\n                    if xr.is_nonzero() and yr.is_nonzero() and abs(xr.e - yr.e) > 65536:\n                        return None\n                    return Float(x=xr + yr, ctx=REAL)", 'C20.L4',
            'seeded change C20d: ideal_2sum(2**100000, 2**-100000) under FP256 raises'),
     Mutant('exact-product-declines-fractions', 'fpy2/number/engine/real.py', "    def mul(self, x: EngineArg, y: EngineArg, ctx: Context) -> EngineRes:\n", "    def mul(self, x: EngineArg, y: EngineArg, ctx: Context) -> EngineRes:\n        if isinstance(x, Fraction) and isinstance(y, Fraction):\n            return None\n", 'C20.L4'),
+    Mutant('frexp-normalizes-under-the-operand-context', CORE, "        m = ctx.round(fp.RealFloat(s=x.s, e=0, c=x.c), exact=True)", "        x = x.normalize()\n        m = ctx.round(fp.RealFloat(s=x.s, e=0, c=x.c), exact=True)", 'C20.P1',
+           'finding F108 before its repair: frexp(Float.from_float(1.25)) raises'),
+    Mutant('frexp-normalizes-to-a-stated-precision', CORE, "        m = ctx.round(fp.RealFloat(s=x.s, e=0, c=x.c), exact=True)", "        x = x.normalize(x.p, None)\n        m = ctx.round(fp.RealFloat(s=x.s, e=0, c=x.c), exact=True)", 'C20.P1',
+           'normalizing to an explicit precision needs no context', expect='silent'),
     Mutant('errfma-ends-in-fast-2sum', EFT, "    r2, r3 = classic_2sum(g, a2)\n", "    r2, r3 = fast_2sum(g, a2)\n", 'C20.L1',
            'finding F107 before its repair: classic_2fma raises AssertionError on about 2% of binary64 triples'),
     Mutant('errfma-ends-in-ordered-fast-2sum', EFT, "    r2, r3 = classic_2sum(g, a2)\n", "    if abs(g) >= abs(a2):\n        r2, r3 = fast_2sum(g, a2)\n    else:\n        r2, r3 = fast_2sum(a2, g)\n", 'C20.L1',
